@@ -3,9 +3,11 @@ from __future__ import annotations
 import weakref
 from _weakref import ref as weakref_ref
 from abc import ABC, abstractmethod
+from contextlib import contextmanager
 from dataclasses import dataclass
 
 from typing_extensions import (
+    List,
     Optional,
     Union,
     Dict,
@@ -74,7 +76,28 @@ class MonitoredContainer(Generic[T], ABC):
     def __init__(self, *args, descriptor: PropertyDescriptor, **kwargs):
         self._descriptor: PropertyDescriptor = descriptor
         self._owner_ref: Optional[weakref.ref[Symbol]] = None
+        self._values_inferred_while_writing: Optional[List[Symbol]] = None
         super().__init__(*args, **kwargs)
+
+    @contextmanager
+    def _written_values_first(self):
+        """
+        A write operation records its values one by one, and recording a value can infer further values for this very
+        container. They are stored when the operation has stored its own values: after them, once, and only if the
+        operation did not write them itself.
+        """
+        if self._values_inferred_while_writing is not None:
+            # part of a write operation that is under way
+            yield
+            return
+        self._values_inferred_while_writing = []
+        try:
+            yield
+        finally:
+            inferred_values = self._values_inferred_while_writing
+            self._values_inferred_while_writing = None
+            for value in inferred_values:
+                self._update(value)
 
     def _bind_owner(self, owner) -> MonitoredContainer:
         """
@@ -124,6 +147,9 @@ class MonitoredContainer(Generic[T], ABC):
         :param add_relation_to_the_graph: Whether to add the relation to the graph or not
         :return: Whether the value was added or not
         """
+        if self._values_inferred_while_writing is not None:
+            self._values_inferred_while_writing.append(value)
+            return True
         # by identity, like the symbol graph: an equal but distinct instance is another individual
         if any(existing is value for existing in self):
             return False
@@ -189,15 +215,17 @@ class MonitoredList(MonitoredContainer, list):
     def extend(self, items):
         # materialised first: the items may come from this list itself, or from a container that the inferences of
         # the added items write to
-        for item in list(items):
-            self._add_item(item)
+        with self._written_values_first():
+            for item in list(items):
+                self._add_item(item)
 
     def __iadd__(self, items):
         self.extend(items)
         return self
 
     def append(self, item):
-        self._add_item(item)
+        with self._written_values_first():
+            self._add_item(item)
 
     def _add_item(
         self, item, inferred: bool = False, add_relation_to_the_graph: bool = True
@@ -228,15 +256,17 @@ class MonitoredList(MonitoredContainer, list):
             if not 0 <= idx < len(self):
                 # what the list itself would say, before anything is recorded
                 raise IndexError("list assignment index out of range")
-        value = self._on_add(value)
-        super().__setitem__(idx, value)
+        with self._written_values_first():
+            value = self._on_add(value)
+            super().__setitem__(idx, value)
 
     def insert(self, idx, item):
         if idx < 0:
             # resolved now: recording the item can append inferred values to this list
             idx = max(0, len(self) + idx)
-        item = self._on_add(item)
-        super().insert(idx, item)
+        with self._written_values_first():
+            item = self._on_add(item)
+            super().insert(idx, item)
 
     def _remove_item(self, item):
         self.remove(item)
